@@ -164,6 +164,7 @@ func runC01(w *W) {
 	w.genFillBlock(fillStep(w), judge)
 	w.genBufferFill(judge)
 	w.genFillThenBlank(judge)
+	w.genBlankRunInString(judge)
 	w.genCarryThenNothing(judge)
 	w.genDenseSizes(judge)
 	w.genBackslashRuns(judge)
